@@ -95,7 +95,8 @@ class Acc:
         self._dirctr += 1
         # hostile but legal directory names (dots, '.p'/'.ih5' infixes, spaces, hidden) rotate through all work directories:
         # file-name conventions of the subject must not be confused by the directory part of a path
-        hostile = ["plain", "my.projects", ".private", "x.ih5", "with space", "data.p2", "a.p1.ih5", "ünï"][self._dirctr % 8]
+        hostile = ["plain", "my.projects", ".private", "x.ih5", "with space", "data.p2", "a.p1.ih5", "ünï", "sample[1]", "st*r", "q?", "{a,b}"]
+        hostile = hostile[self._dirctr % len(hostile)]
         d = self.scratch / f"{tag}{self.shard}_{self._dirctr}" / hostile
         d.mkdir(parents=True, exist_ok=True)
         return d
